@@ -95,6 +95,7 @@ def make_fake():
             self.contact: bool | None = None
             self.reconn: bool | None = None
             self.writes: list[tuple[int, Any]] = []
+            self.flush_fail = False      # a pending-flush write was attempted and failed
 
         def _put(self, v, r):
             self.mem[r.name] = v
@@ -127,6 +128,7 @@ def make_fake():
                 return
             ok = self.flush.pop(0) if self.flush else True   # a pending-flush write
             if not ok:
+                self.flush_fail = True
                 raise HardwareLayerException("scripted flush failure")
             self._put(value, r)
 
@@ -199,7 +201,7 @@ class Impl:
             line += (f"\tlsw={_pairs(sorted((_rid(k), v) for k, v in d.last_success_writes.items()))}"
                      f"\tpend={_pairs((_rid(r.name), v) for r, v in d.pending_writes.items())}"
                      f"\thw={_pairs(sorted((_rid(k), v) for k, v in hw.mem.items()))}"
-                     f"\tw={_pairs(hw.writes)}")
+                     f"\tw={_pairs(hw.writes)}\tff={'1' if hw.flush_fail else '0'}")
         return line
 
     def op(self, line: str) -> str:
@@ -249,7 +251,7 @@ class Impl:
         except Exception as e:  # anything else is outside the protocol
             res = f"raise:{type(e).__name__}"
         self.last = {"res": res, "contact": hw.contact, "reconn": hw.reconn, "writes": list(hw.writes),
-                     "state": d.state.name, "status": str(self.tag.get_value()), "mem": dict(hw.mem)}
+                     "flush_fail": hw.flush_fail, "state": d.state.name, "status": str(self.tag.get_value()), "mem": dict(hw.mem)}
         return self.render(res)
 
 
